@@ -492,7 +492,7 @@ func runConc(c *lib.Ctx, w *world, cs concCase, agentID uint32) (sig, what strin
 			}
 		}
 	}
-	res, _ := porcupine.CheckOperationsVerbose(fifoModel(), ops, 2*time.Minute)
+	res, _ := porcupine.CheckOperationsVerbose(fifoModel(), ops, 20*time.Second)
 	switch res {
 	case porcupine.Illegal:
 		return "conc:not-linearizable", "the recorded enqueue/check-in history is not linearizable against a FIFO queue with prefix-batch dequeue", describe()
@@ -506,7 +506,7 @@ func runConc(c *lib.Ctx, w *world, cs concCase, agentID uint32) (sig, what strin
 }
 
 func run(c *lib.Ctx) {
-	c.Rule("seq: all sequences of length <= 6 over {enq small, enq big(16 MiB), check-in} (exhaustive) + random sequences with size classes {0, 1 KiB, 10 MiB, 30 MiB-64, 30 MiB, 40 MiB}; chunk: uploads of {0, 1, C-1, C, C+1} (+{2C-1, 2C, 2C+1} thorough) bytes, C = 30 MiB; conc: 2-4 operator goroutines x 4-8 enqueues against a consumer doing check-ins on one agent, hooks queue.add / queue.get.writeback = none|yield|sleep; distinct = distinct case description (+ history index for conc); non-trivial = at least one task delivered")
+	c.Rule("seq: all sequences of length <= 6 over {enq small, enq big(16 MiB), check-in} (exhaustive) + random sequences with size classes {0, 1 KiB, 10 MiB, 30 MiB-64, 30 MiB, 40 MiB}; chunk: uploads of {0, 1, C-1, C, C+1} (+{2C-1, 2C, 2C+1} thorough) bytes, C = 30 MiB; conc: 2-3 operator goroutines x 2-4 enqueues against a consumer doing 3-5 check-ins (+ drain) on one agent, hooks queue.add / queue.get.writeback = none|yield|sleep; distinct = distinct case description (+ history index for conc); non-trivial = at least one task delivered")
 	c.Assume("the reference decoder reads the reply as CommandDispatcher does", "the size rule asserted is the statement's: a reply does not continue after the data already in it reached 30 MiB; maximal batching is not demanded",
 		"concurrent histories are stamped at the client boundary (before the call, after the reply) with one atomic counter")
 	if c.Replay != nil {
@@ -624,9 +624,9 @@ func concurrent(c *lib.Ctx) {
 	}
 	defer w.r.Close()
 	hooks := []string{"none", "yield", "sleep"}
-	m := c.N(480, 20000)
+	m := c.N(4000, 200000)
 	for i := 0; i < m; i++ {
-		cs := concCase{Kind: "conc", Producers: 2 + c.Rng.Intn(3), PerProd: 4 + c.Rng.Intn(5), Checkins: 4 + c.Rng.Intn(6), Hook: hooks[i%3]}
+		cs := concCase{Kind: "conc", Producers: 2 + c.Rng.Intn(2), PerProd: 2 + c.Rng.Intn(3), Checkins: 3 + c.Rng.Intn(3), Hook: hooks[i%3]}
 		b, _ := json.Marshal(cs)
 		c.Cur("conc", b)
 		c.Eval()
